@@ -58,7 +58,7 @@ fn close(a: f64, b: f64) -> bool {
 }
 
 fn one_tree(t: &Rose, rng: &mut Rng, rep: &mut Report, batch: &mut Batch, exact: bool) {
-    let how = *rng.pick(&["api", "bfs", "tomb", "parse", "grown"]);
+    let how = *rng.pick(&["api", "bfs", "tomb", "parse", "grown", "bottomup"]);
     let start = format!("real.build\t{how}\t{}\t{}", t.canon(), rng.next() % 100_000);
     let mut st = RealState::new();
     let mut case = Case::new();
@@ -66,7 +66,7 @@ fn one_tree(t: &Rose, rng: &mut Rng, rep: &mut Report, batch: &mut Batch, exact:
         rep.count("start_rejected");
         return;
     }
-    verify(&mut st, &mut case, rng, rep, exact, true);
+    verify(&mut st, &mut case, rng, rep, exact, true, false);
     // the matrix must also be right on a tree that was queried before and then edited (per-node caches)
     if rng.chance(1, 2) {
         let op = match rng.below(4) {
@@ -85,13 +85,35 @@ fn one_tree(t: &Rose, rng: &mut Rng, rep: &mut Report, batch: &mut Batch, exact:
         case.step(&mut st, "real.reset_cache", Cmp::Ignore);
         if class_of(&a) != "panic" {
             rep.count("recomputed_after_edit");
-            verify(&mut st, &mut case, rng, rep, exact, false);
+            verify(&mut st, &mut case, rng, rep, exact, false, false);
+        }
+    }
+    // a leaf renamed IN PLACE after the matrices (and the sorted leaf index behind the bipartition code) were computed, with NO
+    // cache reset: `distance_matrix` never reads the bipartition caches, so its taxa and rows must follow the new name at once
+    if rng.chance(1, 3) {
+        let slots = slots_of(&st.tree);
+        let tips: Vec<usize> = (0..slots.len()).filter(|&i| !slots[i].deleted && slots[i].children.is_empty() && slots[i].name.is_some()).collect();
+        if !tips.is_empty() {
+            let _ = st.tree.distance_matrix_recursive();
+            let _ = st.tree.get_partitions();
+            let i = *rng.pick(&tips);
+            let nm = format!("{}{}", *rng.pick(&["0", "ZZ", "a", "~"]), rng.below(1000));
+            let a = case.step(&mut st, &format!("ar.setname\t{i}\th{}", hex(&nm)), if exact { Cmp::Class } else { Cmp::Ignore });
+            if !exact {
+                if let Some(last) = case.steps.last_mut() {
+                    last.0.model_cmd = "nop".into();
+                }
+            }
+            if class_of(&a) == "ok" {
+                rep.count("fast_matrix_after_unreset_rename");
+                verify(&mut st, &mut case, rng, rep, exact, false, true);
+            }
         }
     }
     batch.push(case);
 }
 
-fn verify(st: &mut RealState, case: &mut Case, rng: &mut Rng, rep: &mut Report, exact: bool, count: bool) {
+fn verify(st: &mut RealState, case: &mut Case, rng: &mut Rng, rep: &mut Report, exact: bool, count: bool, fast_only: bool) {
     let start = case.script();
     let slots = slots_of(&st.tree);
     let Some(r) = live_roots(&slots).first().and_then(|x| rose_of(&slots, *x)) else { return };
@@ -107,7 +129,9 @@ fn verify(st: &mut RealState, case: &mut Case, rng: &mut Rng, rep: &mut Report, 
     }
     // ---- both algorithms on the real crate ----
     let (fast, fast_m) = real_dm(&st.tree, false);
-    let (rec, rec_m) = real_dm(&st.tree, true);
+    // (fast_only: the leaf index may legitimately be stale — an in-place rename without the documented reset — so the
+    // recursive algorithm, which reads it, is not asked)
+    let (rec, rec_m) = if fast_only { ("skipped".to_string(), None) } else { real_dm(&st.tree, true) };
     if exact {
         // model tie (exact integers): the fold model, the rose-level recursion, the recursive algorithm
         let (a, _) = st.exec("nop");
@@ -120,7 +144,9 @@ fn verify(st: &mut RealState, case: &mut Case, rng: &mut Rng, rep: &mut Report, 
         }
         case.steps.push((Step { real_cmd: "dm\tfast".into(), model_cmd: format!("dm\tfast\t{UNIT}"), real_ans: fast.clone() }, cmp()));
         case.steps.push((Step { real_cmd: "dm\tfast".into(), model_cmd: format!("dm\trose\t{UNIT}"), real_ans: fast.clone() }, cmp()));
-        case.steps.push((Step { real_cmd: "dm\trec".into(), model_cmd: "dm\trec".into(), real_ans: rec.clone() }, cmp()));
+        if !fast_only {
+            case.steps.push((Step { real_cmd: "dm\trec".into(), model_cmd: "dm\trec".into(), real_ans: rec.clone() }, cmp()));
+        }
     }
     let ctx = format!("{start}\ndm\tfast");
     if fast == "panic" || rec == "panic" {
@@ -167,7 +193,7 @@ fn verify(st: &mut RealState, case: &mut Case, rng: &mut Rng, rep: &mut Report, 
     } else {
         check(&fast_m, "fast", rep, false);
     }
-    if all_len {
+    if all_len && !fast_only {
         match &rec_m {
             None => rep.oracle("path-length", "recursive:refused", &ctx, &rec),
             Some(_) => check(&rec_m, "recursive", rep, true),
@@ -196,7 +222,7 @@ fn verify(st: &mut RealState, case: &mut Case, rng: &mut Rng, rep: &mut Report, 
                 }
             }
         }
-    } else if rec_m.is_some() {
+    } else if rec_m.is_some() && !fast_only {
         rep.oracle("missing-length", "recursive-accepted", &ctx, &rec);
     }
 }
